@@ -73,12 +73,14 @@ func concurrentChild(args []string) int {
 			go func(cl int) {
 				defer wg.Done()
 				unit := fmt.Sprintf("[round %04d client %02d site %s]\n", r, cl, s.Name())
-				rep := (1 << 20) / len(unit)
+				// as large as the slow page: what a peer writes into a wrongly shared
+				// buffer must reach beyond the part of the slow response already sent
+				rep := (6 << 20) / len(unit)
 				if cl%3 == 2 {
 					rep = 3000 / len(unit)
 				}
 				if cl == 0 {
-					rep = (2 << 20) / len(unit) // larger than what the socket buffers absorb while the client does not read
+					rep = (6 << 20) / len(unit) // larger than what the kernel's socket buffers absorb (4 MiB send buffer limit on loopback) while the client does not read
 				}
 				sp := probe.Spec{Code: 200, Text: unit, Rep: rep, Hdr: [][2]string{{"Content-Type", "text/html; charset=utf-8"}}}
 				want := sp.Body()
@@ -102,12 +104,12 @@ func concurrentChild(args []string) int {
 				var resp *lib.Resp
 				if slow {
 					k.Raw().Write(raw)
-					time.Sleep(160 * time.Millisecond) // the server is mid-way through sending this response meanwhile
+					time.Sleep(520 * time.Millisecond) // the server is blocked mid-way through sending this response meanwhile
 					resp = k.Do("GET", nil)
 				} else {
 					// the peers arrive in two waves while the slow reader's response is
 					// stuck in the server's send path
-					time.Sleep(time.Duration(40+40*(cl%2)) * time.Millisecond)
+					time.Sleep(time.Duration(160+30*(cl%6)) * time.Millisecond) // after the slow response has been rendered
 					resp = k.Do("GET", raw)
 				}
 				mu.Lock()
@@ -158,7 +160,7 @@ func min(a, b int) int {
 
 // runConcurrent is the parent side.
 func runConcurrent(c *lib.Ctx) ([]Viol, map[string]int) {
-	j := concJob{Dir: filepath.Join(c.Dir, "conc"), Rounds: c.Pick(60, 600)}
+	j := concJob{Dir: filepath.Join(c.Dir, "conc"), Rounds: c.Pick(24, 300)}
 	in, _ := json.Marshal(j)
 	c.Journal("C12 concurrent battery %d rounds", j.Rounds)
 	res := c.Sub("concurrent", nil, in, nil, 30*time.Minute)
